@@ -15,7 +15,7 @@ import (
 
 // Op is one client command.
 type Op struct {
-	Kind   string   `json:"k"`           // set add replace append prepend delete touch get gat noop version stats quit raw
+	Kind   string   `json:"k"` // set add replace append prepend delete touch get gat noop version stats quit raw
 	Key    string   `json:"key,omitempty"`
 	Keys   []string `json:"keys,omitempty"`   // get: all keys, in order
 	Quiets []bool   `json:"quiets,omitempty"` // binary get: per key GETQ (true) or GET (false); only the last may be false
